@@ -25,9 +25,12 @@ enum {
     OP_BLIP,
     OP_WTRAVERSE,
     OP_EMPLACE_THROW,
+    OP_HOLD_TRAVERSE,
+    OP_HOLD_BLIP,
 };
 static const char* const OPN[] = {"traverse", "push_front", "push_back", "emplace_front",
-                                  "emplace_back", "erase", "blip", "wtraverse", "emplace_throw"};
+                                  "emplace_back", "erase", "blip", "wtraverse", "emplace_throw",
+                                  "hold_traverse", "hold_blip"};
 
 namespace {
 
@@ -311,6 +314,61 @@ struct WL {
                 O->travs.push_back(tr);
                 break;
             }
+            case OP_HOLD_TRAVERSE: {
+                // window mode: take a handle and an iterator while a writer is parked in
+                // the middle of an operation, keep both across the rest of that
+                // operation and across other handles' releases, then go on
+                Traversal tr;
+                {
+                    auto h = static_cast<const G*>(g)->lock_read();
+                    tr.tid = gsim::self();
+                    {
+                        gsim::Oracle o;
+                        tr.begin_inv = gsim::seq();
+                    }
+                    tr.complete = true;
+                    auto it = h->begin();
+                    bool first = true;
+                    for (; it != h->end(); ++it) {
+                        long v = value_of(*it);
+                        if (first) {
+                            first = false;
+                            gsim::ctr_add(1, 1);  // ready: handle registered, iterator taken
+                            gsim::ev_wait(7);  // the writer has finished and released
+                            for (int y = 0; y < op.a; y++) gsim::yield();
+                            long v2 = value_of(*it);
+                            if (v2 != v)
+                                gsim::fail("dead_object_access", "element changed from %ld to %ld "
+                                           "under a live handle", v, v2);
+                        }
+                        gsim::Oracle o;
+                        tr.seen.push_back(v);
+                        tr.seen_at.push_back(gsim::seq());
+                    }
+                    if (first) {
+                        gsim::ctr_add(1, 1);
+                        gsim::ev_wait(7);
+                    }
+                    gsim::Oracle o;
+                    tr.end_seq = gsim::seq();
+                }
+                gsim::Oracle o;
+                O->travs.push_back(tr);
+                break;
+            }
+            case OP_HOLD_BLIP: {
+                auto h = static_cast<const G*>(g)->lock_read();
+                if (op.b & 1) {
+                    auto it = h->begin();
+                    (void)it;
+                } else {
+                    (void)*h;
+                }
+                gsim::ctr_add(1, 1);
+                gsim::ev_wait(7);
+                for (int y = 0; y < op.a; y++) gsim::yield();
+                break;
+            }
             case OP_BLIP: {
                 auto h = static_cast<const G*>(g)->lock_read();
                 if (op.a & 1) {
@@ -575,7 +633,7 @@ struct WL {
         gsim::prog_reset(n);
         for (int t = 0; t < n; t++) {
             int role = gsim::gen_int(4);  // 0 reader 1 writer 2 mixed 3 blipper
-            int k = 1 + gsim::gen_int(c13 ? 5 : 4);
+            int k = 1 + gsim::gen_int((c13 ? 5 : 4) + (gsim::thorough() ? 2 : 0));
             for (int i = 0; i < k; i++) {
                 int r = gsim::gen_int(100);
                 gsim::Op op{OP_TRAVERSE, 0, 0, 0};
@@ -612,12 +670,14 @@ struct WL {
     {
         bool c13 = !strcmp(mode, "c13");
         bool freeze = !strcmp(mode, "freeze");
+        bool window = !strcmp(mode, "window");
         Oracle orc;
         O = &orc;
         orc.strict_alloc = c13;
         bool with_throw = std::is_same<T, Elem>::value && (c13 || !strcmp(mode, "throw"));
         if (!gsim::prog_loaded()) {
             if (freeze) gen_freeze();
+            else if (window) gen_window();
             else gen(c13, with_throw);
         }
         gsim::enable_fault(gsim::F_STALE_READ, gsim::knob("stale", 0, 2) * 150);
@@ -626,7 +686,7 @@ struct WL {
         long live0 = gsim::live_blocks();
         (void)live0;
         // a few initial elements so that traversals have something to see
-        int init = gsim::knob("initial", 0, 3);
+        int init = gsim::knob("initial", window ? 1 : 0, 3);
         {
             auto h = g->lock_write();
             for (int i = 0; i < init; i++) {
@@ -637,6 +697,7 @@ struct WL {
             }
         }
         if (freeze) run_freeze();
+        else if (window) run_window();
         else {
             Body b{this};
             wl::run_program(b);
@@ -754,6 +815,69 @@ struct WL {
         gsim::thaw(tids[0]);
         gsim::freeze_disarm(tids[0]);
         for (int t = 0; t < n; t++) gsim::join(tids[t]);
+    }
+    // C05 "window" mode: the writer is parked at its k-th step inside push/erase; blips
+    // and readers register and take iterators *inside that window*; the writer then
+    // finishes and releases; the others release in varying orders.
+    static void window_writer(void* p)
+    {
+        FArg* a = (FArg*)p;
+        int k = gsim::knob("freeze_k", 0, 40);
+        gsim::freeze_arm(gsim::self(), k);
+        a->w->body(a->t);
+        gsim::freeze_disarm(gsim::self());
+        gsim::ctr_add(3, 1);
+        gsim::ev_set(7);
+    }
+    static void window_other(void* p)
+    {
+        FArg* a = (FArg*)p;
+        a->w->body(a->t);
+    }
+    void run_window()
+    {
+        int n = gsim::prog_nthreads();
+        if (n < 1) return;
+        int holders = 0;
+        for (int t = 1; t < n; t++)
+            for (int i = 0; i < gsim::prog_len(t); i++) {
+                int c = gsim::prog_op(t, i).code;
+                if (c == OP_HOLD_TRAVERSE || c == OP_HOLD_BLIP) {
+                    holders++;
+                    if (i != 0) gsim::fail("harness", "a hold op must be a thread's first op");
+                }
+            }
+        FArg args[gsim::MAX_THREADS];
+        int tids[gsim::MAX_THREADS];
+        args[0] = FArg{this, 0};
+        tids[0] = gsim::spawn(window_writer, &args[0]);
+        while (!gsim::is_frozen(tids[0]) && gsim::ctr_get(3) == 0) gsim::yield();
+        if (gsim::is_frozen(tids[0])) gsim::probe("rcu.window_opened");
+        for (int t = 1; t < n; t++) {
+            args[t] = FArg{this, t};
+            tids[t] = gsim::spawn(window_other, &args[t]);
+        }
+        gsim::ctr_wait_ge(1, holders);  // every holder is registered and waits
+        gsim::thaw(tids[0]);
+        gsim::freeze_disarm(tids[0]);
+        for (int t = 0; t < n; t++) gsim::join(tids[t]);
+    }
+    static void gen_window()
+    {
+        int n = 3 + gsim::gen_int(3);
+        gsim::prog_reset(n);
+        int k = 1 + gsim::gen_int(2);
+        for (int i = 0; i < k; i++) {
+            gsim::Op op{OP_ERASE, gsim::gen_int(4), 0, gsim::gen_int(6) == 0 ? 1 : 0};
+            if (gsim::gen_int(4) == 0) op = gsim::Op{OP_PUSH_FRONT + gsim::gen_int(4), 0, 0, 0};
+            gsim::prog_add(0, op);
+        }
+        for (int t = 1; t < n; t++) {
+            gsim::prog_add(t, {gsim::gen_int(2) ? OP_HOLD_BLIP : OP_HOLD_TRAVERSE, gsim::gen_int(4),
+                               gsim::gen_int(2), 0});
+            if (gsim::gen_int(3) == 0)
+                gsim::prog_add(t, {gsim::gen_int(2) ? OP_BLIP : OP_TRAVERSE, 0, gsim::gen_int(2), 0});
+        }
     }
     static void gen_freeze()
     {
